@@ -305,7 +305,7 @@ void register_c18(std::vector<Profile>& v)
   p.real_components = {"BacktraceStorage", "BackendWorker::_process_transit_event (Backtrace/InitBacktrace/FlushBacktrace)", "frontend, queues"};
   p.stub_components = {"recording sinks", "clock (virtual)", "scheduling (simulator)"};
   p.assumptions = {"one writer thread per backtrace logger (the exact model); re-initialisation only with the ring empty and nothing in flight"};
-  p.quick_runs = 3000;
+  p.quick_runs = 20000;
   p.thorough_runs = 400000;
   v.push_back(p);
 }
